@@ -1,7 +1,7 @@
 (* C12 - negotiated parse configuration matches the capabilities both sides sent.
    Gen/Merge.v (the seven merge arms and the rx rule) is regenerated from /repo on every run. *)
 From Coq Require Import List NArith Bool.
-From RC Require Import Base.Res Base.Wire Gen.Merge Model.Negotiate Proofs.NegotiateProofs Proofs.C12Proofs.
+From RC Require Import Base.Res Base.Wire Gen.Merge Model.Negotiate Proofs.NegotiateProofs Proofs.C12Proofs Gen.FsmTable Model.Fsm Proofs.C08Proofs.
 Import ListNotations.
 Open Scope N_scope.
 
@@ -95,3 +95,13 @@ Proof.
   eexists. eexists. split; [vm_compute; reflexivity|]. split; [vm_compute; reflexivity|].
   split; [repeat constructor; cbn; intuition discriminate|]. vm_compute. auto.
 Qed.
+
+(* the live session FSM: after the first accepted OPEN the connection decodes with exactly [live_session_config] of the local ADD-PATH
+   families and the peer's capabilities (Gen/FsmTable.v is regenerated from Session::handle_event; the OPEN acceptance block is
+   recognised by hash) *)
+Theorem c12_live_session_fsm : forall s o b caps l,
+  op_allowed o = true -> s_conn s = true -> s_sc s = sc_modern ->
+  addpath_families_vec caps = Ok l -> op_addpath o = Ok l -> op_four o = four_octet_capable caps ->
+  Ok (s_sc (fst (open_accept s o b))) = live_session_config (s_local_ap s) caps.
+Proof. exact c12_live_fsm_proof. Qed.
+Print Assumptions c12_live_session_fsm.
